@@ -23,13 +23,13 @@ RULE = ('simulated NLA / CHIC libraries on 1-4 contigs with molecules whose site
         'bp_per_segment in {500..20000}, bp_per_job in {1..50000}, fragment_size >= longest simulated fragment, pool on/off. '
         'Non-trivial = library with a true molecule of >=2 fragments whose site is within 1 bp of a bin edge of the run; '
         'distinct = distinct (library seed, run configuration).'
-        ' Plus contig names containing each other with runs restricted by -contig, tiles of 100 / 150 bp (smaller than a fragment), an independent ejection interval per run.')
+        ' Plus contig names containing each other with runs restricted by -contig, tiles of 100 / 150 bp (smaller than a fragment), an independent ejection interval per run, copies of one molecule between 60 and 900 bp long.')
 ASSUMPTIONS = ['fetch margins (fragment_size) are at least the longest simulated fragment (precondition of the property)',
                'per-run molecule identifiers (mi), the per-job index (ix) and the @PG header may differ',
                'worker schedules are sampled (distinct completion orders observed are counted)']
 MIN_NONTRIVIAL = {'quick': 40, 'thorough': 2500}
 REQUIRED_MONITORS = ['run:serial', 'run:restricted_to_one_contig', 'lib:contig_with_placed_unmapped_pairs_only', 'run:contig_per_process', 'run:tiling_pool', 'run:tiling_nopool', 'records:compared', 'jobs:observed',
-                     'ownership:records_checked', 'edge:sites_on_bin_edges']
+                     'ownership:records_checked', 'edge:sites_on_bin_edges', 'lib:fragments_up_to_900bp', 'lib:hard_clipped_fragments', 'run:tiling_with_job_bed_file']
 SHARD_TIMEOUT = {'quick': 900, 'thorough': 7200}
 IGNORE_TAGS = {'mi', 'ix'}
 
@@ -54,7 +54,10 @@ def run_case(case):
     if seg < 500:
         # hundreds of tiny tiles per contig are slow (one tagging task each): keep the genome small for them
         contigs = [(nm, min(ln, 4000)) for nm, ln in contigs[:2]]
-    max_frag = 300
+    # copies of one molecule differ in length by up to a few hundred bases; a third of the libraries go up to 900 (the command line fetches
+    # 1000 bp margins for these methods)
+    max_frag = 300 if case['i'] % 3 else 900
+    acc.count('lib:fragments_up_to_900bp', 1 if max_frag == 900 else 0)
     # a short scaffold that will hold nothing but pairs flagged unmapped which keep a coordinate (placed but unmapped)
     lonely = None
     if r.random() < 0.4:
@@ -87,10 +90,12 @@ def run_case(case):
                 cell = r.randint(1, 3)
                 reverse = r.random() < 0.5
                 for _ in range(r.randint(1, 4)):
-                    fr, tr = F.make_fragment(gen, r, rid, case['i'] + 1, method, cell, name, pos, reverse, umi, r.randint(60, max_frag),
+                    fr, tr = F.make_fragment(gen, r, rid, case['i'] + 1, method, cell, name, pos, reverse, umi, r.randint(60, max_frag) if r.random() < 0.7 else r.choice([60, max_frag]),
                                              clip=r.choice([0, 0, 3]), motif_ok=not (method == 'nla' and r.random() < 0.12))
                     if fr is None:
                         continue
+                    if r.random() < 0.1 and F.add_hard_clips(r, fr):
+                        acc.count('lib:hard_clipped_fragments')
                     recs.extend(fr)
                     truths[rid] = tr
                     if tr['site'] % seg in (0, 1, seg - 1):
@@ -235,6 +240,11 @@ def run_case(case):
             kw['molecule_iterator_args'] = dict(captured['molecule_iterator_args'])
             kw.update(out_bam_path=out_t, one_contig_per_process=False, bp_per_segment=cfg['bp_per_segment'], bp_per_job=cfg['bp_per_job'],
                       fragment_size=cfg['fragment_size'], use_pool=use_pool, n_threads=cfg['workers'], temp_folder_root=dd)
+            if (case['i'] + ti) % 3 == 0:
+                # the optional report of the job blocks (-jobbed): asking for it must not change what is tagged
+                kw['job_bed_file'] = os.path.join(dd, f'jobs{ti}.bed')
+                cfg['job_bed_file'] = True
+                acc.count('run:tiling_with_job_bed_file')
             err = None
             with T.instrumented(ev, cfg['delay_seed'], ej()) as b2:
                 try:
